@@ -113,6 +113,9 @@ TRow ==
            \o (IF t.msg = "" THEN <<"empty-message">> ELSE <<>>)
            \o (IF t.placeholder THEN <<"unresolved-placeholder">> ELSE <<>>)
            \o (IF t.src # Source(r) THEN <<"message-source">> ELSE <<>>)
+           \* a formatting function (the test's MessageFunc, the execution's formatter) is handed the issue it is to describe:
+           \* the parameters it saw are the parameters the returned issue carries
+           \o (IF SetOf(t.fparams) # SetOf(t.params) THEN <<"formatter-saw-other-params">> ELSE <<>>)
      IN TLCSet(1, TLCGet(1) \o (IF problems # <<>>
           THEN <<[prop |-> "C11", kind |-> problems[1], id |-> t.id, line |-> l,
                   detail |-> [ty |-> e.ty, test |-> e.test, tcfg |-> r.tcfg, ecfg |-> r.ecfg, glob |-> r.glob, problems |-> problems,
